@@ -850,7 +850,13 @@ impl<'r> Gen<'r> {
             let v = match k {
                 MetaK::Status => {
                     if self.rng.chance(1, 5) {
-                        self.gen(&Ty::Status, 0, sc)
+                        // a status range through a variable, or a number through one (a declaration, a parameter, a
+                        // parenthesised literal): what is checked where the literal stands must hold where it arrives
+                        if self.rng.chance(1, 2) {
+                            self.gen(&Ty::Num, 0, sc)
+                        } else {
+                            self.gen(&Ty::Status, 0, sc)
+                        }
                     } else if self.rng.chance(1, 3) {
                         E::LitStatus(self.rng.range(1, 5) as u8)
                     } else {
@@ -980,7 +986,13 @@ impl<'r> Gen<'r> {
     fn leaf(&mut self, ty: &Ty, sc: &Scope) -> E {
         match ty {
             Ty::Text => E::LitStr((*self.rng.pick(&MEDIA)).to_owned()),
-            Ty::Num => E::LitNum(*self.rng.pick(&[200u64, 404, 500])),
+            Ty::Num => {
+                if self.cfg.invalid_status && self.rng.chance(1, 12) {
+                    E::LitNum(*self.rng.pick(&[42u64, 799, 1000, 65536]))
+                } else {
+                    E::LitNum(*self.rng.pick(&[200u64, 404, 500]))
+                }
+            }
             Ty::Status => E::LitStatus(self.rng.range(1, 5) as u8),
             Ty::Prim => E::Prim(*self.rng.pick(&[PrimK::Num, PrimK::Str, PrimK::Bool, PrimK::Int, PrimK::Uri])),
             Ty::Uri => E::UriT {
